@@ -44,13 +44,14 @@ def run_scenario(sc):
         holder = {}
 
         async def main():
+            nr = NodeRecorder(sim).install()
+            holder['nr'] = nr
             a = await sim.start_host('A', '10.0.0.1')
+            nr.attach(a)
             b = await sim.start_host('B', '10.0.0.2')
             sim.randoms['mcast_delay'] = list(sc['mcast'])
             sim.randoms['tc_delay'] = list(sc['tcd'])
             sim.randoms['first_query_delay'] = list(sc['fq'])
-            nr = NodeRecorder(sim, a).install()
-            holder['nr'] = nr
             svcs = [svc(f"s{i}", TA, 'hs.local.' if sc['shared'] else f"h{i}.local.", i) for i in range(sc['registered'])]
             res['svcs'] = svcs
             for s in svcs:
